@@ -64,6 +64,17 @@ Theorem C09_exponential_series_converges :
   Un_cv (fun N0 => fst (series_op rops invfact (u, v) ops N0 psi k)) (fst (expf rops (ccosh u v) (csinh u v) ops psi k)) /\
   Un_cv (fun N0 => snd (series_op rops invfact (u, v) ops N0 psi k)) (snd (expf rops (ccosh u v) (csinh u v) ops psi k)).
 Proof. exact general_series_converges. Qed.
+(* ... and at the code's entry point: with the true values of e^alpha, cosh alpha, sinh alpha, every amplitude apply_exp returns is the
+   sum of the operator exponential series (the empty string included: e^alpha = cosh alpha + sinh alpha) *)
+Theorem C09_apply_exp_is_the_series :
+  forall par n (P : pstring (T:=R)) (u v : R) (vec0 : list (C (T:=R))),
+  NoDup (map fst (pops P)) -> keys_ok n (pops P) -> length vec0 = N.to_nat (2 ^ n) ->
+  exists w, ps_apply_exp_with rops par P (cexp' u v) (ccosh u v) (csinh u v) (mkState n vec0) = Ok (mkState n w) /\ length w = N.to_nat (2 ^ n) /\
+    forall x, x < 2 ^ n ->
+      Un_cv (fun N0 => fst (series_op rops invfact (u, v) (pops P) N0 (get (c0 rops) vec0) x)) (fst (get (c0 rops) w x)) /\
+      Un_cv (fun N0 => snd (series_op rops invfact (u, v) (pops P) N0 (get (c0 rops) vec0) x)) (snd (get (c0 rops) w x)).
+Proof. exact apply_exp_is_series. Qed.
+Print Assumptions C09_apply_exp_is_the_series.
 (* the two limits named: the complex hyperbolic functions in terms of the real ones *)
 Theorem C09_complex_cosh_sinh :
   forall u v : R, ccosh u v = ((cosh u * cos v)%R, (sinh u * sin v)%R) /\ csinh u v = ((sinh u * cos v)%R, (cosh u * sin v)%R).
